@@ -247,6 +247,44 @@ VARIANTS["C02"] = [
     R("remove_edge-loops-swapped", DH, "        for node in edge[\"in\"]:\n            self._node[node][\"out\"].remove(idx)\n        for node in edge[\"out\"]:\n            self._node[node][\"in\"].remove(idx)\n\n        del self._edge[idx]\n        del self._edge_attr[idx]\n\n    def remove_edges_from", "        for node in edge[\"out\"]:\n            self._node[node][\"in\"].remove(idx)\n        for node in edge[\"in\"]:\n            self._node[node][\"out\"].remove(idx)\n\n        del self._edge_attr[idx]\n        del self._edge[idx]\n\n    def remove_edges_from"),
 ]
 
+# --------------------------------------------------------------------------- C03
+VARIANTS["C03"] = [
+    M("add_simplex-no-dup-check", SC, "        if not members or self.has_simplex(members):\n            return\n\n        if idx in self._edge.keys():  # check that uid is not present yet\n            warn(f\"uid {idx} already exists, cannot add simplex {members}\")", "        if not members:\n            return\n\n        if idx in self._edge.keys():  # check that uid is not present yet\n            warn(f\"uid {idx} already exists, cannot add simplex {members}\")", "S-DUP", "add_simplex"),
+    M("add_simplex-no-empty-check", SC, "        if not members or self.has_simplex(members):\n            return\n\n        if idx in self._edge.keys():  # check that uid is not present yet\n            warn(f\"uid {idx} already exists, cannot add simplex {members}\")", "        if self.has_simplex(members):\n            return\n\n        if idx in self._edge.keys():  # check that uid is not present yet\n            warn(f\"uid {idx} already exists, cannot add simplex {members}\")", "S-EMPTY", "add_simplex"),
+    M("add_simplex-faces-unguarded", SC, "            if not members_sub or self.has_simplex(members_sub):\n                continue\n\n            self._add_face(members_sub)", "            if not members_sub:\n                continue\n\n            self._add_face(members_sub)", "S-DUP", "add_simplex"),
+    M("add_simplex-no-faces", SC, "        faces = self._subfaces(members)\n        faces = set(faces)  # get unique faces\n        for members_sub in faces:\n            # check that it does not exist yet (based on members, not ID)\n            if not members_sub or self.has_simplex(members_sub):\n                continue\n\n            self._add_face(members_sub)\n", "", "S-CLOSE", "add_simplex"),
+    M("bulk-dict-faces-not-scheduled", SC, "                update_uid_counter(self, idx)\n\n                # store subfaces\n                faces += self._subfaces(members)\n", "                update_uid_counter(self, idx)\n", "S-CLOSE", "add_simplices_from"),
+    M("bulk-early-return-skips-face-loop", SC, "            # store subfaces\n            faces += self._subfaces(members)\n\n            try:\n                e = next(new_edges)\n            except StopIteration:\n                break\n", "            # store subfaces\n            faces += self._subfaces(members)\n\n            try:\n                e = next(new_edges)\n            except StopIteration:\n                return\n", "S-CLOSE", "add_simplices_from"),
+    M("bulk-no-max-size", SC, "                    combos = powerset(\n                        members, include_singletons=False, max_size=max_order + 1\n                    )\n                    faces += list(combos)  # store faces", "                    combos = powerset(members, include_singletons=False)\n                    faces += list(combos)  # store faces", "S-BOUND", "add_simplices_from"),
+    M("bulk-max-size-off-by-one", SC, "                    combos = powerset(\n                        members, include_singletons=False, max_size=max_order + 1\n                    )\n                    faces += list(combos)  # store faces", "                    combos = powerset(\n                        members, include_singletons=False, max_size=max_order + 2\n                    )\n                    faces += list(combos)  # store faces", "S-BOUND", "add_simplices_from"),
+    M("bulk-bound-guard-dropped", SC, "            if max_order is not None:\n                if len(members) > max_order + 1:\n                    combos = powerset(\n                        members, include_singletons=False, max_size=max_order + 1\n                    )\n                    faces += list(combos)  # store faces\n\n                    try:\n                        e = next(new_edges)\n                    except StopIteration:\n                        break\n\n                    continue\n", "", "S-BOUND", "add_simplices_from"),
+    M("supfaces-non-strict", SC, "        return [id_ for id_, s in self._edge.items() if simplex < s]", "        return [id_ for id_, s in self._edge.items() if simplex <= s]", "S-UP", "_supfaces_id"),
+    M("remove-without-supersets", SC, "            supfaces_ids = self._supfaces_id(self._edge[idx])\n            for sup_id in supfaces_ids:\n                self._remove_simplex_id(sup_id)\n", "            supfaces_ids = self._supfaces_id(self._edge[idx])\n", "S-UP", "remove_simplex_id"),
+    M("inline-store-plain-set", SC, "                self._edge[idx] = frozenset(members)\n            except TypeError as e:", "                self._edge[idx] = set(members)\n            except TypeError as e:", "S-FROZENSET", "add_simplices_from"),
+    M("subfaces-stops-at-triangles", SC, "            for n in range(size, 2, -1):", "            for n in range(size, 3, -1):", "S-FACES", "_subfaces"),
+    M("bulk-id-guard-dropped", SC, "            if idx in self._edge.keys():  # check that uid is not present yet\n                warn(f\"uid {idx} already exists, cannot add simplex {set(members)}.\")\n\n                try:\n                    e = next(new_edges)\n                except StopIteration:\n                    break\n\n                continue\n", "", "S-ID", "add_simplices_from"),
+    M("remove_node-keeps-attr", SC, "            del self._edge[e]\n            del self._edge_attr[e]\n            for node in node_neighbors.difference({n}):", "            del self._edge[e]\n            for node in node_neighbors.difference({n}):", "R-ATTR", "SimplicialComplex.remove_node"),
+    M("add_face-one-sided", SC, "            self._node[n].add(idx)\n\n        self._edge_attr[idx] = self._edge_attr_dict_factory()\n\n    def add_simplex", "            pass\n\n        self._edge_attr[idx] = self._edge_attr_dict_factory()\n\n    def add_simplex", "R-INC", "_add_face"),
+    M("add_simplex-none-check-dropped", SC, "        if None in members:\n            raise XGIError(\"None cannot be a node\")\n\n        if not members or self.has_simplex(members):\n            return\n", "        if not members or self.has_simplex(members):\n            return\n", "R-EXC", "_add_simplex"),
+    M(
+        "stale-duplicate-snapshot", SC,
+        "            faces = set(faces)  # get unique subfaces\n            for members in faces:\n                # check that it does not exist yet (based on members, not ID)\n                if not members or self.has_simplex(members):\n                    continue\n\n                self._add_face(members)\n\n            return",
+        "            faces = set(faces)  # get unique subfaces\n            existing = set(self._edge.values())\n            for members in faces:\n                # check that it does not exist yet (based on members, not ID)\n                if not members or frozenset(members) in existing:\n                    continue\n\n                self._add_face(members)\n\n            return",
+        "S-DUP", "add_simplices_from",
+    ),
+    R(
+        "guards-reordered", SC,
+        "        if not members or self.has_simplex(members):\n            return\n\n        if idx in self._edge.keys():  # check that uid is not present yet\n            warn(f\"uid {idx} already exists, cannot add simplex {members}\")\n            return\n",
+        "        if idx in self._edge.keys():  # check that uid is not present yet\n            warn(f\"uid {idx} already exists, cannot add simplex {members}\")\n            return\n\n        if self.has_simplex(members):\n            return\n        if not members:\n            return\n",
+    ),
+    R(
+        "snapshot-kept-up-to-date", SC,
+        "            faces = set(faces)  # get unique subfaces\n            for members in faces:\n                # check that it does not exist yet (based on members, not ID)\n                if not members or self.has_simplex(members):\n                    continue\n\n                self._add_face(members)\n\n            return",
+        "            faces = set(faces)  # get unique subfaces\n            existing = set(self._edge.values())\n            for members in faces:\n                # check that it does not exist yet (based on members, not ID)\n                if not members or frozenset(members) in existing:\n                    continue\n\n                self._add_face(members)\n                existing.add(frozenset(members))\n\n            return",
+    ),
+    R("subfaces-ascending-range", SC, "            for n in range(size, 2, -1):\n                for face in combinations(simplex, n - 1):\n                    faces.append(face)", "            for k in range(2, size):\n                for face in combinations(simplex, k):\n                    faces.append(face)"),
+]
+
 
 def variants_for(prop):
     return list(VARIANTS.get(prop, []))
